@@ -12,7 +12,7 @@ def build(ctx):
 def check(ctx):
     drv = build(ctx)
     drva = ctx.cxx("drv_assoc", ["drv_assoc.cpp"])
-    r, g = ctx.tlc_graph("VecLife", "VecLifeGraph.cfg", workers=8)
+    r, g = ctx.tlc_graph("VecLife", "VecLifeGraphThorough.cfg" if ctx.thorough else "VecLifeGraph.cfg", workers=8, timeout=1800)
     if not r.ok:
         ctx.model_violation(r, "abstract vector laws")
     r2 = ctx.tlc("Assoc", "AssocMC.cfg", workers=8)
